@@ -178,6 +178,13 @@ def check_modes(rng, X, desc):
         if n > 8:
             lab2[int(rng.integers(n))] = 4            # label 4 owned by one particle (degenerate)
         calls.append(("from_particles(n_modes=6)", lambda: ModeStatistics.from_particles(U, w, lab2, n_modes=6), lab2))
+    if has_n_modes and n >= 16 * d:
+        # one label carries 1e-17 .. 1e-250 of the total weight (stale particles of early iterations next to the current ones): it is
+        # still a healthy cluster of its own and its mode must describe ITS particles
+        w5 = w.copy()
+        w5[labels == 1] *= 10.0 ** (-float(rng.uniform(17, 250)))
+        if np.sum(w5[labels == 1]) > 0:
+            calls.append(("from_particles(n_modes=2, one label with a vanishing share of the weight)", lambda: ModeStatistics.from_particles(U, w5, labels, n_modes=2), labels))
     lo_all, hi_all = U.min(0), U.max(0)
     for nm, f, labs in calls:
         try:
